@@ -8,6 +8,16 @@ HERE = os.path.dirname(os.path.dirname(os.path.abspath(__file__)))
 
 # pid -> (category, technique, level text, level note, design ref)
 CHECKS = {
+    "C09": (
+        "exploration",
+        "Hypothesis: grammar-based Colang 2 program generator x event histories (incl. co-simulated 'hit' events and action life-cycle events) x tie-breaks; invariant checking of the interpreter State against a from-scratch scan after every event",
+        "After the start and after every fed event the State object is inspected: no pending internal event, every live head of a listening flow "
+        "parked on a waiting element, done instances hold no live head, the dispatch index equals a from-scratch scan of all waiting match statements "
+        "(no missing, stale or duplicate entry; reverse map exact), flow_id_states partitions flow_states, referenced actions/children/parents exist. "
+        "Thorough tier additionally enumerates all histories of length <= 4 over a 3-event alphabet for 60 generated programs.",
+        "The scan uses the interpreter's own notion of 'listening flow' and of the event name of a match element; the shipped library flows are not part of the generated domain yet.",
+        "DESIGN.md 4/C09",
+    ),
     "C08": (
         "exploration",
         "Hypothesis: generated signatures x call forms x value types; reference binder (positional -> named -> default -> None) and straight-line callee model; sibling-instance interleavings",
